@@ -268,12 +268,14 @@ class Kernel:
         self.hot_lines: set = set()
         self.hot_rate = 0.0
         self.freeze_p = 0.0
+        self.lines_since_switch = 0
+        self.spin_guard = False
 
     def count(self, key: str, n: int = 1):
         self.counts[key] = self.counts.get(key, 0) + n
 
     def begin_run(self, fair_k: int = 64, line_rate: float = 0.0, line_seed: int = 0, fault_seed: int = 0,
-                  replay: Optional[dict] = None, hot_rate: float = 0.0):
+                  replay: Optional[dict] = None, hot_rate: float = 0.0, spin_guard: bool = False):
         if self.active:
             raise HarnessError("begin_run while a run is active")
         if self.threads:
@@ -284,6 +286,7 @@ class Kernel:
         self.line_rate = line_rate
         self.hot_rate = hot_rate
         self.hot_lines = hot_lines() if hot_rate > 0.0 else set()
+        self.spin_guard = spin_guard
         self.line_rng = random.Random(line_seed)
         self.fault_rng = random.Random(fault_seed)
         if replay is not None:
@@ -295,7 +298,7 @@ class Kernel:
         self.by_ident[threading.get_ident()] = u
         self.last = u
         self.set_strategy({"name": "rr"}, 0)
-        if self.line_rate > 0 or self.hot_rate > 0:
+        if self.line_rate > 0 or self.hot_rate > 0 or self.spin_guard:
             sys.settrace(_global_tracer)
 
     def set_strategy(self, spec: dict, seed: int):
@@ -439,6 +442,7 @@ class Kernel:
         """`me` has already recorded its own new state. Choose who continues; park `me` unless chosen."""
         if self.aborting:
             raise SimAbort()
+        self.lines_since_switch = 0
         self.ndec += 1
         if self.ndec - self.call_dec0 > self.call_budget:
             self._abort("livelock", f"decision budget {self.call_budget} exceeded")
@@ -584,8 +588,16 @@ def hot_lines() -> set:
     return _hot_cache[path]
 
 
+SPIN_LIMIT = 3_000_000  # traced rex lines executed by one thread without reaching a decision point
+
+
 def _local_tracer(frame, event, arg):
     if event == "line":
+        K.lines_since_switch += 1
+        if K.lines_since_switch > SPIN_LIMIT and K.active and not K.aborting:
+            # a task spins inside rex without ever reaching a synchronisation point: deterministic (line counts are), so it is a verdict
+            K._abort("livelock", f"a thread executed {SPIN_LIMIT} lines of rex/asynchronous.py without reaching a synchronisation point (line {frame.f_lineno})")
+            raise SimAbort()
         K.line_hook(frame.f_lineno)
     return _local_tracer
 
@@ -776,7 +788,7 @@ class SimExecutor:
     def _main(self):
         K.by_ident[threading.get_ident()] = self.t
         self.t.gate.acquire()  # wait until first chosen
-        if K.line_rate > 0 or K.hot_rate > 0:
+        if K.line_rate > 0 or K.hot_rate > 0 or K.spin_guard:
             sys.settrace(_global_tracer)
         try:
             while True:
